@@ -277,7 +277,169 @@ func extractC10(c *Ctx) error {
 	if err := extractC10Gates(c, ef); err != nil {
 		return err
 	}
+	if err := extractC10Stores(c); err != nil {
+		return err
+	}
 	return extractC10Callers(c)
+}
+
+// extractC10Stores: every prefix store of x/valset/keeper (accessor function or keeper field -> prefix)
+// and, per accessor, which functions write (Set / Save / IncrementNextID) and which delete through it.
+// The snapshot id counter lives under prefix "IDs" (keeper field ider) — a prefix the jail log shares:
+// the theorem pins that nothing deletes under that prefix and that the counter's only writer is the
+// id generator called from setSnapshotAsCurrent.  A Set / Delete whose receiver cannot be resolved to
+// an accessor is listed as unresolved (pinned to the empty list).
+func extractC10Stores(c *Ctx) error {
+	files, err := c.ParseDir("x/valset/keeper")
+	if err != nil {
+		return err
+	}
+	prefixOf := map[string]string{} // accessor / field -> prefix expression
+	firstPrefix := func(n ast.Node) string {
+		p := ""
+		ast.Inspect(n, func(x ast.Node) bool {
+			if ce, ok := x.(*ast.CallExpr); ok && oneLine(c.Src(ce.Fun)) == "prefix.NewStore" && len(ce.Args) == 2 && p == "" {
+				p = oneLine(c.Src(ce.Args[1]))
+				if base, ok := ce.Args[0].(*ast.CallExpr); ok {
+					if se, ok := base.Fun.(*ast.SelectorExpr); ok && c.Src(se.X) == "k" {
+						p = se.Sel.Name + "+" + p
+					}
+				}
+			}
+			return true
+		})
+		return p
+	}
+	var decls []*ast.FuncDecl
+	for _, f := range files {
+		for _, d := range f.Decls {
+			fd, ok := d.(*ast.FuncDecl)
+			if !ok || fd.Body == nil || strings.HasPrefix(fd.Name.Name, "Verif") {
+				continue
+			}
+			decls = append(decls, fd)
+			if fd.Name.Name == "NewKeeper" {
+				for _, st := range fd.Body.List {
+					if as, ok := st.(*ast.AssignStmt); ok && len(as.Lhs) == 1 && len(as.Rhs) == 1 {
+						if se, ok := as.Lhs[0].(*ast.SelectorExpr); ok && c.Src(se.X) == "k" {
+							if p := firstPrefix(as.Rhs[0]); p != "" {
+								prefixOf[se.Sel.Name] = p
+							}
+						}
+					}
+				}
+				continue
+			}
+			// an accessor: a function that does nothing but return a prefix store
+			if n := len(fd.Body.List); n > 0 && n <= 2 {
+				if rs, ok := fd.Body.List[n-1].(*ast.ReturnStmt); ok && len(rs.Results) == 1 {
+					if ce, ok := rs.Results[0].(*ast.CallExpr); ok && oneLine(c.Src(ce.Fun)) == "prefix.NewStore" {
+						prefixOf[fd.Name.Name] = firstPrefix(rs)
+					}
+				}
+			}
+		}
+	}
+	if len(prefixOf) == 0 {
+		return fmt.Errorf("x/valset/keeper: no prefix store found")
+	}
+	type ops struct{ set, del map[string]bool }
+	use := map[string]*ops{}
+	for a := range prefixOf {
+		use[a] = &ops{map[string]bool{}, map[string]bool{}}
+	}
+	var unresolved []string
+	for _, fd := range decls {
+		if _, isAcc := prefixOf[fd.Name.Name]; isAcc {
+			continue
+		}
+		// local names bound to an accessor: `store := k.fooStore(ctx)`
+		local := map[string]string{}
+		var resolve func(e ast.Expr) string
+		resolve = func(e ast.Expr) string {
+			switch x := e.(type) {
+			case *ast.CallExpr:
+				if se, ok := x.Fun.(*ast.SelectorExpr); ok && c.Src(se.X) == "k" {
+					if _, ok := prefixOf[se.Sel.Name]; ok {
+						return se.Sel.Name
+					}
+				}
+			case *ast.SelectorExpr:
+				if c.Src(x.X) == "k" {
+					if _, ok := prefixOf[x.Sel.Name]; ok {
+						return x.Sel.Name
+					}
+				}
+			case *ast.Ident:
+				return local[x.Name]
+			}
+			return ""
+		}
+		ast.Inspect(fd.Body, func(n ast.Node) bool {
+			if as, ok := n.(*ast.AssignStmt); ok && len(as.Lhs) == len(as.Rhs) {
+				for i := range as.Lhs {
+					if id, ok := as.Lhs[i].(*ast.Ident); ok {
+						if a := resolve(as.Rhs[i]); a != "" {
+							local[id.Name] = a
+						}
+					}
+				}
+			}
+			return true
+		})
+		ast.Inspect(fd.Body, func(n ast.Node) bool {
+			ce, ok := n.(*ast.CallExpr)
+			if !ok {
+				return true
+			}
+			fun := oneLine(c.Src(ce.Fun))
+			var recv ast.Expr
+			kind := ""
+			if se, ok := ce.Fun.(*ast.SelectorExpr); ok {
+				switch se.Sel.Name {
+				case "Set", "IncrementNextID":
+					recv, kind = se.X, "set"
+				case "Delete":
+					recv, kind = se.X, "del"
+				}
+			}
+			if fun == "keeperutil.Save" && len(ce.Args) > 0 {
+				recv, kind = ce.Args[0], "set"
+			}
+			if fun == "keeperutil.Delete" && len(ce.Args) > 0 {
+				recv, kind = ce.Args[0], "del"
+			}
+			if kind == "" {
+				return true
+			}
+			a := resolve(recv)
+			if a == "" {
+				// a receiver that is no store at all (maps, sets, loggers) is told apart by name
+				src := oneLine(c.Src(recv))
+				if strings.Contains(strings.ToLower(src), "store") || strings.Contains(src, "jailLog") || strings.Contains(src, "ider") || kind == "del" {
+					unresolved = append(unresolved, fd.Name.Name+": "+oneLine(c.Src(ce.Fun)))
+				}
+				return true
+			}
+			if kind == "set" {
+				use[a].set[fd.Name.Name] = true
+			} else {
+				use[a].del[fd.Name.Name] = true
+			}
+			return true
+		})
+	}
+	var rows []string
+	for a, p := range prefixOf {
+		rows = append(rows, fmt.Sprintf("%s | %s | set: %s | delete: %s", p, a, strings.Join(SortedSet(use[a].set), ","), strings.Join(SortedSet(use[a].del), ",")))
+	}
+	sort.Strings(rows)
+	sort.Strings(unresolved)
+	c.P("(* x/valset/keeper: prefix | accessor | functions writing through it | functions deleting through it *)")
+	c.P("Definition valset_stores : list string := %s.", CoqStrList(rows))
+	c.P("Definition valset_unresolved_store_ops : list string := %s.", CoqStrList(unresolved))
+	c.Info("valset_stores", rows)
+	return nil
 }
 
 // extractC10Gates: every function of x/evm/keeper that hands a valset to a remote chain
